@@ -136,6 +136,7 @@ pub trait TrOps: Trait {
     const CL: bool;
     const NAME: &'static str;
     fn clone_vec<M: MemBuilder>(_v: &AnyVec<Self, M>) -> AnyVec<Self, M> { unreachable!() }
+    fn clone_from_vec<M: MemBuilder>(_dst: &mut AnyVec<Self, M>, _src: &AnyVec<Self, M>) { unreachable!() }
     /// dst.push(src.at(idx).lazy_clone()^depth)
     fn push_lazy_at<M: MemBuilder>(_dst: &mut AnyVec<Self, M>, _ins: Option<usize>, _src: &AnyVec<Self, M>, _idx: usize, _depth: usize) { unreachable!() }
     fn lazy_pop<M: MemBuilder>(_dst: &mut AnyVec<Self, M>, _h: &Pop<'_, Self, M>) { unreachable!() }
@@ -170,6 +171,7 @@ macro_rules! cloneable_trops {
             const CL: bool = true;
             const NAME: &'static str = $name;
             fn clone_vec<M: MemBuilder>(v: &AnyVec<Self, M>) -> AnyVec<Self, M> { v.clone() }
+            fn clone_from_vec<M: MemBuilder>(dst: &mut AnyVec<Self, M>, src: &AnyVec<Self, M>) { dst.clone_from(src) }
             fn push_lazy_at<M: MemBuilder>(dst: &mut AnyVec<Self, M>, ins: Option<usize>, src: &AnyVec<Self, M>, idx: usize, depth: usize) {
                 let e = src.at(idx);
                 let l1 = e.lazy_clone();
@@ -879,6 +881,39 @@ impl<Tr: ?Sized + TrOps, M: BackOps> World<Tr, M> {
                 let c = lib!(Tr::clone_vec(self.vecs[*v].as_ref().unwrap()));
                 self.slot(*d);
                 self.vecs[*d] = Some(c);
+                // `Clone::clone_from` is part of the same contract (by default `*dst = src.clone()`): a probe in this
+                // frame, invisible to the trace - a second clone, non-empty, is overwritten by `clone_from(&src)`;
+                // it must then show one new value per source element, every value it held before must have been
+                // destroyed exactly once, and dropping it must destroy the new ones.  The registry is put back as it
+                // was, so identities and event logs of the case are unaffected.  (Seeded change C03-m11: an
+                // allocation-reusing override that overwrites the old prefix without destroying it.)
+                let armed = with_reg(|r| r.fuse.is_some());
+                if !armed && T::SIZE > 0 && T::DG {
+                    let src = self.vecs[*v].as_ref().unwrap();
+                    let (next0, created0, dropped0, loglen0) = with_reg(|r| (r.next, r.created, r.dropped, r.log.len()));
+                    let problems: Vec<String> = crate::elem::untracked(|| {
+                        let mut out = Vec::new();
+                        let mut tmp = Tr::clone_vec(src);
+                        // make the destination longer than the source by one where the backend allows it
+                        if M::RESIZABLE || tmp.capacity() > tmp.len() { tmp.push(AnyValueWrapper::new(T::new())); }
+                        Tr::clone_from_vec(&mut tmp, src);
+                        let got: Vec<u64> = if tmp.len() == 0 { Vec::new() } else { tmp.downcast_ref::<T>().unwrap().as_slice().iter().map(|e| e.token()).collect() };
+                        if got.len() != src.len() { out.push(format!("clone_from-len={}-expected={}", got.len(), src.len())); }
+                        drop(tmp);
+                        with_reg(|r| {
+                            for (t, n) in r.live.iter() {
+                                if *t >= next0 && *n != 0 { out.push(format!("clone_from-probe-value-{}-live={}", t, n)); }
+                            }
+                        });
+                        out
+                    });
+                    with_reg(|r| {
+                        r.live.retain(|t, _| *t < next0);
+                        r.next = next0; r.created = created0; r.dropped = dropped0; r.log.truncate(loglen0);
+                        let mut ps = problems; ps.sort(); ps.truncate(3);
+                        r.violations.extend(ps);
+                    });
+                }
             }
             Op::CloneEmpty(v, d) => {
                 let c = lib!(self.vecs[*v].as_ref().unwrap().clone_empty());
